@@ -3,7 +3,9 @@
 # a scratch worktree of /repo's HEAD gets the patch, the harness is built with a
 # modfile whose replace directive points at that worktree, and the check writes
 # its evidence / replay files under a scratch VERIF_ROOT.
-#   tools/mutant.sh <seeded-dir> <tier> <prop> [<prop>...]      (env SKIP_SUITE=1 skips the full suite)
+#   tools/mutant.sh <seeded-dir> <tier> <prop> [<prop>...]      (env SKIP_SUITE=1 skips the full suite;
+#   env HARNESS_SRC=<dir> builds the harness from a frozen copy of /verif/harness - used for blind rounds,
+#   where the harness must not have seen the change's description)
 # Prints one summary line per step; exit 0 iff the change is confirmed AND some check reported a violation.
 set -u
 D=$(cd "$1" && pwd); TIER=$2; shift 2; PROPS="$*"
@@ -37,7 +39,7 @@ if [ "${SKIP_SUITE:-0}" != 1 ]; then
 fi
 echo "CONFIRM $NAME demo_without_patch=$CLEAN demo_with_patch=$PATCHED suite_with_patch=$SUITE"
 # build the harness against the patched worktree
-H=/verif/harness
+H=${HARNESS_SRC:-/verif/harness}
 sed "s#=> /repo#=> $WT#" $H/go.mod > "$VR/go.mod"; cp $H/go.sum "$VR/go.sum"
 (cd $H && go build -modfile="$VR/go.mod" -tags verif -o "$VR/check" ./cmd/check) >"$VR/hbuild.log" 2>&1 || { echo "RESULT $NAME harness-build-failed"; cat "$VR/hbuild.log" | head; exit 2; }
 cp /verif/KNOWN_FINDINGS.txt "$VR/"
